@@ -60,8 +60,63 @@ MapRel == /\ Is("maprel")
                /\ \A i \in 1..Len(E.after) : E.after[i].surf = E.before[i].surf /\ E.after[i].f = E.before[i].f)
           /\ UNCHANGED <<dict, opts, ws, cnt, memo, lastop, lastp>>
 
+
+(* ---------------- the command-line tools as a black box ----------------
+   `tokenize -O detail` prints surface, feature, lexicon type, ids and costs but no ranges and
+   no word ids; the ranges are DERIVED by the chain rule (each token starts where the scan
+   continues after the previous one), the word id is any candidate that fits. *)
+RECURSIVE CliDerive(_, _, _, _, _, _, _)
+CliDerive(D, O, s, T, toks, i, prevE) ==       \* returns [ok, core] ; core = Seq of tokens with b, e, id
+   IF i > Len(toks) THEN [ok |-> TRUE, core |-> <<>>]
+   ELSE IF prevE >= Len(s) THEN [ok |-> FALSE, core |-> <<>>]
+   ELSE LET t == toks[i]
+            b == NextStart(D, O, s, T, prevE)
+            e == b + Len(t.surf)
+            fits == IF b >= Len(s) \/ e > Len(s) THEN {}
+                    ELSE {w \in CandsAt(D, O, s, T, b) : w.e = e /\ w.lt = t.lt /\ w.l = t.l /\ w.r = t.r /\ w.c = t.c
+                                                          /\ EntryFeature(D, w.lt, w.id) = t.f}
+        IN IF fits = {} \/ (e <= Len(s) /\ Slice(s, b, e) # t.surf) THEN [ok |-> FALSE, core |-> <<>>]
+           ELSE LET w == CHOOSE w \in fits : TRUE
+                    rest == CliDerive(D, O, s, T, toks, i + 1, e)
+                IN [ok |-> rest.ok, core |-> <<[b |-> b, e |-> e, lt |-> w.lt, id |-> w.id, l |-> w.l, r |-> w.r, c |-> w.c, tot |-> t.tot]>> \o rest.core]
+
+CliTok == /\ Is("clitok")
+          /\ LET s == E.s  T == STab(dict, s, DevAstralNul)  d == CliDerive(dict, opts, s, T, E.toks, 1, 0) IN
+             /\ AT("C01", "cli-tokens-are-candidates-in-chain", d.ok)
+             /\ (d.ok => /\ AT("C01", "cli-partition", PartitionOK(dict, opts, s, T, d.core))
+                          /\ (Len(s) > 0 => AT("C02", "cli-prefix-cost+optimal",
+                                                /\ ChainOK(dict, opts, s, T, d.core, 1, 0, 0) /\ PrefixCostOK(dict, d.core)
+                                                /\ ChainTotal(dict, d.core) = OptCost(dict, opts, s, T))))
+          /\ UNCHANGED <<dict, opts, ws, cnt, memo, lastop, lastp>>
+
+(* `reorder` tokenizes the training lines with a plain tokenizer (no ignore_space, no grouping limit) *)
+RECURSIVE SumCounts(_, _, _, _)
+SumCounts(D, lines, i, acc) ==
+   IF i > Len(lines) THEN acc
+   ELSE LET e == EvalCounts(D, [isp |-> FALSE, mgl |-> 0], lines[i]) IN
+        SumCounts(D, lines, i + 1, [lc |-> [x \in 0..(D.nl - 1) |-> acc.lc[x] + e.lc[x]], rc |-> [x \in 0..(D.nr - 1) |-> acc.rc[x] + e.rc[x]]])
+CliOrder == /\ Is("cliorder")
+            /\ LET z == [lc |-> [x \in 0..(dict.nl - 1) |-> 0], rc |-> [x \in 0..(dict.nr - 1) |-> 0]]
+                   c == SumCounts([dict EXCEPT !.user = <<>>], E.lines, 1, z)     \* the dictionary FILE holds no user lexicon
+               IN A("C13", "reorder-tool-orders-by-frequency", OrderOK(E.lo, c.lc, dict.nl) /\ OrderOK(E.ro, c.rc, dict.nr))
+            /\ lastp' = <<E.lo, E.ro>>
+            /\ UNCHANGED <<dict, opts, ws, cnt, memo, lastop>>
+
+CliMapRel == /\ Is("climaprel")
+             /\ LET pl == PermOfList(E.ll)  pr == PermOfList(E.rl) IN
+                A("C06", "cli-tokens-equal-up-to-renaming",
+                  /\ Len(E.after) = Len(E.before)
+                  /\ \A i \in 1..Len(E.after) :
+                        /\ E.after[i].surf = E.before[i].surf /\ E.after[i].f = E.before[i].f /\ E.after[i].lt = E.before[i].lt
+                        /\ E.after[i].c = E.before[i].c /\ E.after[i].tot = E.before[i].tot
+                        /\ E.after[i].l = pl[E.before[i].l + 1] /\ E.after[i].r = pr[E.before[i].r + 1])
+             /\ UNCHANGED <<dict, opts, ws, cnt, memo, lastop, lastp>>
+
+(* a tool that exits with an error where the library path succeeds *)
+CliErr == Is("cli_err") /\ A("C10", "tool-failed", FALSE) /\ UNCHANGED <<dict, opts, ws, cnt, memo, lastop, lastp>>
+
 Lift(a) == a /\ UNCHANGED <<lastop, lastp>>
-DNext == \/ DSession \/ Proj \/ User \/ Map \/ WR \/ MapRel \/ DProbs \/ Lift(CInit) \/ Lift(CUpd)
+DNext == \/ CliTok \/ CliOrder \/ CliMapRel \/ CliErr \/ DSession \/ Proj \/ User \/ Map \/ WR \/ MapRel \/ DProbs \/ Lift(CInit) \/ Lift(CUpd)
          \/ Lift(Reset) \/ Lift(Tok) \/ Lift(Read) \/ Lift(PanicStuck) \/ Lift(PanicElsewhere)
 DSpec == DInit /\ [][DNext]_dvars
 ===========================================================================
